@@ -5,6 +5,7 @@ import signal
 import warnings
 
 from .agents import walk_diff as W
+from . import timeouts as _T
 
 
 def _map_counts(items, f):
@@ -59,7 +60,7 @@ def extra_run(ctx, res):
         done += 1
         src = W.src_of(items)
         case = {"src": src}
-        signal.alarm(10)
+        signal.alarm(_T.limit())
         try:
             circ = R["parse"](src, inject_pulses=R["GI"], autoload_pulses=False)
             r0 = R["run"](circ)
@@ -105,7 +106,8 @@ def extra_run(ctx, res):
                     ok = [x.subcircuit.index for x in ro_.readouts] == want and [x.subcircuit.index for x in rq.readouts] == want
                     res.oracle_case("overridden_let_counts_like_literals", ok, {"src": text, "override": ov}, "overridden loop counts give a different visit sequence than the literal program")
         except W.Hang:
-            res.oracle_case("terminates", False, case, "no result within 10 s")
+            _T.saw_hang()
+            res.oracle_case("terminates", False, case, "no result within the time limit")
         except R["JaqalError"] as e:
             res.oracle_case("bracketed_program_runs", False, case, f"JaqalError: {e}")
         finally:
